@@ -52,10 +52,8 @@ def run_case(r, seed, name, label, cfg, profile, kwlen, relation, only=None, cac
     kwlen = min(kwlen, sse.kw_limit(name, cfg))
     case = {'scheme': name, 'label': label, 'cfg': cfg, 'profile': profile, 'kwlen': kwlen, 'relation': relation}
     core.note_case(case)
-    g = det.rng(seed, 'db', name, label, tuple(profile), kwlen, relation)
-    db = domains.make_db(profile, cfg.get('param_identifier_size', 8), kwlen, g, relation)
+    db, cfg2, g = sse.build_db(seed, name, label, cfg, profile, kwlen, relation)
     absent = domains.absent_keywords(db, sse.kw_limit(name, cfg), g)
-    cfg2 = sse.finalize_cfg(name, cfg, db)
     det.seed_case(seed, PROPERTY, name, label, tuple(profile), kwlen, relation)
     L = sse.loader(name)
     r['states'] += 1
@@ -70,7 +68,7 @@ def run_case(r, seed, name, label, cfg, profile, kwlen, relation, only=None, cac
     # a second database with other keywords (and partly the same identifiers) encrypted under the SAME key by the same scheme
     # object: its keywords are absent from the first index and vice versa
     try:
-        other = domains.make_db(profile, cfg.get('param_identifier_size', 8), kwlen, g, relation)
+        other, _c, _g = sse.build_db(seed + 7919, name, label, cfg, profile, kwlen, relation)
         other = {w: ids for w, ids in other.items() if w not in db}
         if other and sse.finalize_cfg(name, cfg, other) == cfg2:
             edb_other = scheme.EDBSetup(key, other)
